@@ -10,7 +10,7 @@ ID = "C18"
 LEVEL = "exploration"
 RULE = ("cases = generated plotfiles (odd/even field counts incl. 1, with/without species, unknown "
         "names that are prefixes/substrings of each other or hold regex metacharacters, 2D/3D, "
-        "negative and infinite extrema, negative/zero/huge times) x menu option sets {none, -m, "
+        "negative and infinite extrema, negative/zero/huge/infinite/NaN times) x menu option sets {none, -m, "
         "-f, -m -f, -d, -e, --has_var} + minuterie + marinate, several Menu runs per process and "
         "fresh subprocesses; one evaluation = one tool run whose parsed output is compared with "
         "the model. distinct = hash(model, tool, options); non-trivial = odd field count, no "
@@ -48,7 +48,7 @@ def cases(tier, seed):
         bf = rng.choice([2, 4])
         g = dict(seed=rng.randrange(10 ** 9), ndims=nd, nlevels=1 + i % 3, bf=bf, names=names,
                  base_blocks=(1, 2) if bf == 4 else (2, 3), payload=rng.choice(["random", "special", "random"]),
-                 time=rng.choice([0.0, -2.5, 1e300, 3.25e-7, 7.0, 123456.789]))
+                 time=[0.0, -2.5, 1e300, 3.25e-7, 7.0, 123456.789, float("inf"), float("-inf"), float("nan"), -0.0][(i * 7 + rng.randrange(2)) % 10])
         cs.append({"gen": g, "sel_seed": seed * 73 + i, "subprocess": i < 2})
     return cs
 
